@@ -1617,6 +1617,10 @@ def judge_packages(case: Dict[str, Any], obs: Dict[str, Any], sources: List[str]
                 m = re.search(r"The directive '@(\w+)' can only be used once at this location", e2["msg"])
                 if m and m.group(1) in facts["repeatable"]:
                     trig, sig = TRIG_REPEATABLE, "operation-refused"
+            if is_intro and e2 and not e1 and e2["cls"] == "InvalidInput" and facts["emptied_inputs"]:
+                # every field of an input type is deprecated: the introspected type has no fields, the emitted class has an
+                # empty body and black refuses the module (C19-F4)
+                trig, sig = TRIG_DEPRECATED, "generation-fails-empty-input-class"
             res.failures.append(Failure(sig, trig, inp, f"{base}: {e1} / {other}: {e2}"[:400]))
             continue
         fa, fb = obs["files"][base], obs["files"][other]
@@ -1867,7 +1871,8 @@ def facts_from_sdl(sdl: str) -> Dict[str, Any]:
             continue
         dep_targets.add(n)
         todo += [schema_gen.unwrap(f["type"]) for f in inputs.get(n, [])]
-    return {"defs": defs, "dep_args": dep_args, "repeatable": repeatable, "dep_targets": dep_targets}
+    emptied = {n for n, fs in inputs.items() if fs and all(f["deprecated"] for f in fs)}
+    return {"defs": defs, "dep_args": dep_args, "repeatable": repeatable, "dep_targets": dep_targets, "emptied_inputs": emptied}
 
 
 def replay_input(ctx: Ctx, inp: Dict[str, Any]) -> Result:
